@@ -72,7 +72,7 @@ impl MimeType {
     pub const AUDIO_FLAC: &'static str = "audio/flac";
     pub const AUDIO_WAV: &'static str = "audio/wav";
     pub const AUDIO_MP4: &'static str = "audio/mp4";
-    pub const AUDIO_OGG: &'static str = "audio/oga";
+    pub const AUDIO_OGG: &'static str = "audio/ogg";
     pub const AUDIO_MIDI: &'static str = "audio/midi";
     pub const AUDIO_MPEG: &'static str = "audio/mpeg";
     pub const AUDIO_OPUS: &'static str = "audio/opus";
